@@ -66,7 +66,12 @@ def c02_relevant(kind, rec, case):
     if kind == "sol" and rec.startswith("sol satisfy"):
         return True  # "satisfiable" verdict of satisfy (the solution itself is also C01's concern)
     if kind in ("nonterm", "panic", "hang"):
-        return scen_of(case).startswith("satisfy")
+        return scen_of(case).startswith("satisfy") or scen_of(case).startswith("iterate")
+    if kind == "solset":
+        # the end of an enumeration is an Unsatisfiable verdict on the model plus blocking clauses:
+        # a missing solution means it came too early (foreign / repeated solutions are C01 / C03)
+        resp = getattr(case, "current_resp", "")
+        return resp.startswith("ok") or (" missing=" in resp and " missing=0 " not in resp + " ")
     return False
 
 
@@ -102,7 +107,7 @@ PROPS = {
     "C02": {
         "streams": [
             {"name": "answers", "mode": "answers", "quick": 500, "thorough": 15000,
-             "args": ["--mix", "satisfy=5,iterate=1,optimise=1,assume=1"]},
+             "args": ["--mix", "satisfy=4,iterate=3,optimise=1,assume=1"]},
         ],
         "relevant": c02_relevant,
         "level_text": "Proof: the oracle is exact (mem_solutions, solutions_eq_nil_iff), so an accepted Unsatisfiable verdict or posting error means the (prefix) model has no satisfying assignment, and a prefix-unsat model is unsat. Tie to code: every verdict of satisfy and every Err from post/add_clause on generated models is judged against the oracle; non-termination is observed as a poll cap / wall-clock cap.",
@@ -123,8 +128,8 @@ PROPS = {
             {"name": "optimise", "mode": "answers", "quick": 400, "thorough": 10000, "args": ["--mix", "optimise=1"]},
         ],
         "relevant": panic_or({"opt", "improving", "sol", "partial", "verdict"}, ["optimise"]),
-        "level_text": "Proof: `lsu` models linear_sat_unsat.rs (cut objective <= best-1 as root clause, loop until unsat); theorems lsu_optimal / optimiseMin_optimal / optimiseMin_unsat_iff: for every sound+complete oracle the result is a solution of the original model that no solution beats, Unsatisfiable iff no solution; maximise_via_negation for the scaled(-1) objective. Tie to code: optimise() with both procedures, both directions and view objectives on generated models; result kind, optimum value (= verified `optimum`), every callback solution and strict improvement are judged.",
-        "level_note": LEVEL_NOTE_COMMON + "linear_unsat_sat.rs is tied by correspondence only (no Lean model of the root lower bound yet).",
+        "level_text": "lus_optimal / optimiseMinLus_spec: the lower-bounding loop of linear_unsat_sat.rs (assume obj <= root bound; on failure make obj >= bound+1 hard) returns an optimum within objective(w)-lb+1 rounds for every sound+complete oracle and every sound root bound. Proof: `lsu` models linear_sat_unsat.rs (cut objective <= best-1 as root clause, loop until unsat); theorems lsu_optimal / optimiseMin_optimal / optimiseMin_unsat_iff: for every sound+complete oracle the result is a solution of the original model that no solution beats, Unsatisfiable iff no solution; maximise_via_negation for the scaled(-1) objective. Tie to code: optimise() with both procedures, both directions and view objectives on generated models; result kind, optimum value (= verified `optimum`), every callback solution and strict improvement are judged.",
+        "level_note": LEVEL_NOTE_COMMON + "The root lower bound used by LUS is abstract (RootLb: never above a solution's objective, reflects a posted bound); the oracle `Solve` is any sound and complete solve (C01 + C02).",
     },
     "C05": {
         "streams": [
@@ -186,7 +191,7 @@ PROPS = {
     },
     "C08": {
         "streams": [
-            {"name": "cumulative", "mode": "answers", "quick": 500, "thorough": 12000,
+            {"name": "cumulative", "mode": "answers", "quick": 3000, "thorough": 60000,
              "args": ["--mix", "iterate=3,satisfy=1,optimise=1", "--kinds", "cumul,cumul,cumul,linle,impl,clause", "--maxproduct", "4000"]},
             {"name": "cumulative-tap", "mode": "tap", "quick": 150, "thorough": 4000,
              "args": ["--kinds", "cumul,cumul,linle"]},
